@@ -927,6 +927,11 @@ def c16(ctx):
     if "Invariant StackIndependentOfSize is violated" not in out:
         raise ToolError("Stack.tla no longer refutes the recursive style: the invariant is vacuous\n" + out[-1500:])
     ctx.notes.append("Stack.tla: Style=recursive is refuted by TLC (StackIndependentOfSize), Style=loop satisfies it")
+    # ... for EVERY size: Apalache discharges the inductive invariant of the loop style with Size, Nest, Base unbounded
+    apalache(ctx, "StackA", ["--cinit=ConstInit", "--init=Init", "--inv=IndInv", "--length=0"])
+    apalache(ctx, "StackA", ["--cinit=ConstInit", "--init=IndInit", "--inv=IndInv", "--length=1"])
+    apalache(ctx, "StackA", ["--cinit=ConstInit", "--init=IndInit", "--inv=StackIndependentOfSize", "--length=0"])
+    ctx.notes.append("StackA.tla (Apalache, unbounded Size / Nest / Base): Init => IndInv, IndInv /\\ Next => IndInv', IndInv => StackIndependentOfSize")
     # (2) peak stack use of the real operations, measured by stack painting on 2 MiB threads in child processes
     sizes = "2000,20000" if ctx.quick() else "5000,50000,500000,1000000"
     tr = os.path.join(ctx.traces, "stack.ndjson")
